@@ -1,7 +1,7 @@
 /-
 Impl/C13Spec.lean — the value-level specification of a C13 history (what PySpark does): frames are
 values; a temp view name denotes the value registered last under its normal form; `session.sql(q)` is the
-engine's value of `q` over the database in which view names denote those values; `session.table` reads
+value of `q` — read the way Spark reads a WITH list (`evalLex`) — over the database in which view names denote those values; `session.table` reads
 the view, else the base table; DataFrame operators act on values.  No CTEs, no names, no splice.
 -/
 import SqlframeModel.Impl.C13Views
@@ -26,7 +26,7 @@ def specStep (norm : Name → Name) (db : Db) (s : SpecSt) : Ev → SpecSt
     | some v => { s with views := setAssoc s.views (norm name) v }
     | none => s
   | .table name => { s with vals := s.vals ++ [bindDb norm s.views db name] }
-  | .sql q => { s with vals := s.vals ++ [evalQuery (bindDb norm s.views db) q] }
+  | .sql q => { s with vals := s.vals ++ [evalLex (bindDb norm s.views db) q] }
   | .transform i op =>
     match s.vals[i]? with
     | some v => { s with vals := s.vals ++ [v.bind op.apply] }
